@@ -1,4 +1,5 @@
 """Forward-run driver shared by the control-flow properties, plus their oracles."""
+import copy
 import z3
 
 from mirsym.values import *
@@ -71,10 +72,11 @@ class Run:
         self.pid = W.field(self.proc.c[0], "Process", "id")
         return W
 
-    def install_event_monitor(self):
+    def install_event_monitor(self, rebind=False):
         W = self.W
         I = self.I
-        self.task_events = []
+        if not rebind:
+            self.task_events = []
         target = None
         for (k_ty, k_tr, k_m), its in I.p.impls.items():
             if k_m == "emit_task_event_with_extra" and k_ty == "Emitter":
@@ -126,15 +128,78 @@ class Run:
         return walk(self.model, "workflow")
 
     # ------------------------------------------------------------------ script
-    def run(self):
-        W = self.boot()
-        W.drain()
-        self.at_quiescence("start")
-        for i in range(self.cfg.k):
+    # ------------------------------------------------------------------ snapshots
+    W_SKIP = ("I", "cfg", "pack_table")
+    R_SKIP = ("I", "res", "cfg", "W", "model", "inputs", "name", "prop", "boot", "install_event_monitor")
+
+    def save(self, snaps, phase):
+        I = self.I
+        if snaps is None:
+            return
+        key = tuple(I.path.taken)
+        if key in snaps:
+            return
+        memo = {}
+        if self.W.pack_table is not None:
+            memo[id(self.W.pack_table)] = self.W.pack_table
+        st = dict(w={k: v for k, v in self.W.__dict__.items() if k not in self.W_SKIP},
+                  r={k: v for k, v in self.__dict__.items() if k not in self.R_SKIP},
+                  path=(list(I.path.taken), list(I.path.nopts), list(I.path.tags), list(I.path.pc), I.path.pc_key), fresh=I.fresh_counter,
+                  witnesses=self.res.witnesses)
+        snaps[key] = (phase, copy.deepcopy(st, memo))
+        if len(snaps) > 48:
+            snaps.pop(next(iter(snaps)))
+
+    def restore(self, snaps):
+        """Resume from the longest snapshot that is a prefix of the requested decision prefix."""
+        I = self.I
+        if not snaps:
+            return None
+        want = tuple(I.path.prefix)
+        best = None
+        for key in snaps:
+            if len(key) <= len(want) and want[: len(key)] == key and (best is None or len(key) > len(best)):
+                best = key
+        if best is None:
+            return None
+        phase, st = snaps[best]
+        memo = {}
+        st = copy.deepcopy(st, memo)
+        self.W = World.__new__(World)
+        self.W.__dict__.update(st["w"])
+        self.W.I = I
+        self.W.cfg = dict(cache_cap=None, keep_processes=self.cfg.keep, max_message_retry_times=None, tick_interval_secs=None)
+        self.W.pack_table = None
+        self.W.install()
+        I.world = self.W
+        self.__dict__.update(st["r"])
+        taken, nopts, tags, pc, pc_key = st["path"]
+        I.path.taken = taken
+        I.path.nopts = nopts
+        I.path.tags = tags
+        I.path.pos = len(taken)
+        for c in pc:
+            I.assume(c)
+        I.fresh_counter = st["fresh"]
+        self.install_event_monitor(rebind=True)
+        return phase
+
+    def run(self, snaps=None):
+        phase = self.restore(snaps)
+        if phase is None:
+            W = self.boot()
+            W.drain()
+            self.at_quiescence("start")
+            phase = 0
+            self.save(snaps, phase)
+        W = self.W
+        for i in range(phase, self.cfg.k):
             if not self.scripted_action(i):
                 break
             W.drain()
             self.at_quiescence("script%d" % i)
+            if i + 1 < self.cfg.k:
+                self.save(snaps, i + 1)
         if self.cfg.answer_all:
             self.answer_all()
         self.at_end()
@@ -181,7 +246,8 @@ class Run:
                 kind = k
         self.current_action["kind_taken"] = kind
         accepted = None if r is None else (r.d == 0)
-        self.log.append(dict(target=t["nid"], target_state=t["state"], target_kind=t["kind"], action=kind, accepted=accepted))
+        occ = [x["tid"] for x in ts if x["nid"] == t["nid"]].index(t["tid"])
+        self.log.append(dict(target=t["nid"], target_state=t["state"], target_kind=t["kind"], action=kind, accepted=accepted, options=opts, occurrence=occ))
         self.after_action(t, kind, accepted, before, nmsg, ntrace)
         self.current_action = None
         return True
@@ -206,7 +272,12 @@ class Run:
             else:
                 t = irqs[0]
             r = W.action(self.pid, t["tid"], "Next", self.outputs_for(t))
-            self.log.append(dict(answer=t["nid"], accepted=None if r is None else r.d == 0))
+            if r is not None and r.d == 1:
+                self.log.append(dict(answer=t["nid"], accepted=False, options=self.outputs_for(t), occurrence=0))
+                self.on_answer_rejected(t, r)
+                break
+            occ = [x["tid"] for x in self.tasks() if x["nid"] == t["nid"]].index(t["tid"])
+            self.log.append(dict(answer=t["nid"], accepted=None if r is None else r.d == 0, options=self.outputs_for(t), occurrence=occ))
             W.drain()
             self.at_quiescence("answer%d" % n)
 
@@ -246,6 +317,9 @@ class Run:
             f = getattr(self, "e_" + o, None)
             if f:
                 f()
+
+    def on_answer_rejected(self, t, r):
+        self.viol("answer-rejected:%s" % t["state"], "completing open interrupt %s was rejected: %s" % (t["nid"], self.W.py(r.f[0])))
 
     def on_answer_bound(self):
         self.viol("answer-all-does-not-terminate", "answering every open interrupt with complete did not finish the process within the bound")
@@ -313,12 +387,12 @@ class Run:
                 if old == "Error" and new == "Running" and e.get("in_hook") and (e["tid"] not in self.catch_revived):
                     self.catch_revived.add(e["tid"])
                     continue
-                self.viol("backward:%s->%s:%s:%s" % (old, new, e["kind"], via), "task %s moved backwards %s -> %s (%s)" % (e["tid"], old, new, via))
+                self.viol("backward:%s->%s:%s:%s" % (old, new, e["kind"], via), "task %s moved backwards %s -> %s (%s)" % (e["tid"], old, new, via), dict(old=old, new=new, kind=e["kind"]))
             elif old in TERMINAL:
                 rep = e.get("reported")
                 if rep:
-                    self.viol("rewrite-after-terminal:%s->%s:%s:%s" % (old, new, e["kind"], via),
-                              "task %s changed %s -> %s after being reported terminal (%s)" % (e["tid"], old, new, via))
+                    self.viol("rewrite-after-terminal:%s:%s" % (e["kind"], via),
+                              "task %s changed %s -> %s after being reported terminal (%s)" % (e["tid"], old, new, via), dict(old=old, new=new, kind=e["kind"]))
         self._c02_pos = len(tr)
 
     def via(self, e):
@@ -477,44 +551,54 @@ class Run:
             elif t["kind"] != "Act":
                 self.viol("accepted:%s-on-%s" % (kind, t["kind"]), "%s accepted on a %s task" % (kind, t["kind"]))
             elif kind in seven and terminal_before:
-                self.viol("accepted-on-terminal:action=%s:state=%s" % (kind, t["state"]), "%s accepted on act %s which is already %s" % (kind, t["nid"], t["state"]))
+                self.viol("accepted-on-terminal:action=%s" % kind, "%s accepted on act %s which is already %s" % (kind, t["nid"], t["state"]))
         elif accepted is False and kind in seven:
             changed = [tid for tid in after if before.get(tid) != after[tid]] + [tid for tid in before if tid not in after]
             if changed or len(W.messages) != nmsg:
-                self.viol("rejected-but-changed:action=%s:state=%s" % (kind, t["state"]),
+                self.viol("rejected-but-changed:action=%s" % kind,
                           "%s on %s (%s) was rejected but changed tasks %s / emitted %d messages" % (kind, t["nid"], t["state"], changed, len(W.messages) - nmsg))
 
 
-def install_trace_context(run):
-    """Annotate every state write with the client action in flight, hook context and 'reported' flag."""
-    W = run.W
-    I = run.I
-    orig_append = W.trace
+class TraceList(list):
+    """State-write trace annotated with the client action in flight, hook context and 'reported' flag."""
 
-    class TraceList(list):
-        def append(self, e):
+    owner = None
+
+    def append(self, e):
+        run = self.owner
+        if run is not None:
+            I = run.I
             a = run.current_action
             if a is not None:
-                kinds = KINDS
-                ds = [I.p.src.enum_variant("EventAction", k) for k in kinds]
+                ds = [I.p.src.enum_variant("EventAction", k) for k in KINDS]
                 name = None
                 ev = a["ev"]
                 if isinstance(ev, str):
                     name = ev
                 else:
-                    for k, x in zip(kinds, ds):
+                    for k, x in zip(KINDS, ds):
                         if not I.check_sat(ev != x):
                             name = k
                 e["action"] = name or "?"
             e["in_hook"] = any("hook" in f.name and "::run" in f.name for f in I.call_stack)
             e["reported"] = run.terminal_reported.get(e["tid"]) is not None
-            list.append(self, e)
+        list.append(self, e)
 
-    W.trace = TraceList(orig_append)
+    def __deepcopy__(self, memo):
+        t = TraceList(copy.deepcopy(list(self), memo))
+        return t
+
+
+def install_trace_context(run):
+    W = run.W
+    if not isinstance(W.trace, TraceList):
+        W.trace = TraceList(W.trace)
+    W.trace.owner = run
 
 
 def run_scenario(I, name, cfg_kw, prop):
     cfg = Cfg(**cfg_kw)
+    snaps = {} if cfg.k > 0 and cfg_kw.get("snapshots", True) else None
 
     def one(I, res):
         r = Run(I, res, name, cfg, prop)
@@ -528,14 +612,16 @@ def run_scenario(I, name, cfg_kw, prop):
         # boot() creates the world; trace context must be installed right after World creation, before start():
         orig_install = r.install_event_monitor
 
-        def inst():
-            orig_install()
+        def inst(rebind=False):
+            orig_install(rebind)
             install_trace_context(r)
 
         r.install_event_monitor = inst
-        r.run()
+        r.run(snaps)
 
-    res = explore(I, name, one, max_paths=cfg.max_paths, seed=cfg_kw.get("seed", 0))
+    res = explore(I, name, one, max_paths=cfg.max_paths, seed=cfg_kw.get("seed", 0), part=cfg_kw.get("part"))
+    if cfg_kw.get("part"):
+        res.name = "%s[%d/%d]" % (name, cfg_kw["part"][0], cfg_kw["part"][1])
     if cfg_kw.get("confirm", True) and res.violations:
         seen = {}
         for v in res.violations:
@@ -638,6 +724,28 @@ class ReplayRun(Run):
 
     def proc_state(self):
         return self.obs["procs"][0]["state"]
+
+    def q_c02(self, where):
+        pass
+
+    def r_c02(self, v, obs):
+        """Without the transition hook the real engine shows a state history only through its message
+        stream and the final task list: look for old followed by new on a task of the same kind."""
+        parts = v.role.split(":")
+        if parts[0] not in ("rewrite-after-terminal", "backward") or not v.detail:
+            return
+        old, new, kind = v.detail["old"], v.detail["new"], v.detail["kind"]
+        for t in self.tasks():
+            if t["kind"] != kind:
+                continue
+            seq = [m["state"] for m in obs["messages"] if m["tid"] == t["tid"] and m["nid"] == t["nid"]]
+            seq = ["Interrupt" if (x == "Created" and kind == "Act") else x for x in seq]
+            seq.append(t["state"])
+            d = [x for i, x in enumerate(seq) if i == 0 or seq[i - 1] != x]
+            for i in range(len(d) - 1):
+                if d[i] == old and new in d[i + 1 :]:
+                    self.found.append((v.role, "observed %s on %s" % (d, t["nid"])))
+                    return
 
 
 def concrete_inputs(run_inputs, model):
